@@ -16,6 +16,14 @@ def frame_to_arrays(df, prefix):
     return out
 
 
+def typed_init(a):
+    """Initial states of an argument set; float columns in the requested precision."""
+    init = {k: np.asarray(v) for k, v in a["init"].items()}
+    if a.get("init_dtype") == "float32":
+        init = {k: (v.astype(np.float32) if np.issubdtype(v.dtype, np.floating) else v) for k, v in init.items()}
+    return init
+
+
 def main():
     from vlib import bootstrap, dsl, pipeline, simcheck  # noqa: F401
 
@@ -32,7 +40,7 @@ def main():
     for i, a in enumerate(spec["sim_args"]):
         model = dsl.build_lcm_model(desc)
         f, _ = pipeline.get_lcm_function(model, "solve_and_simulate")
-        init = {k: np.asarray(v) for k, v in a["init"].items()}
+        init = typed_init(a)
         df = simcheck.simulate_once(f, a["params"], init, None, seed=int(a["seed"]))
         out.update(frame_to_arrays(df, f"sim{i}"))
     np.savez(sys.argv[2], **out)
